@@ -19,6 +19,20 @@ def is_letter_command(k):
     return re.fullmatch(r"\\[a-zA-Z]+(\{[^}]*\})?", k) is not None
 
 
+# characters that case-fold / normalise to ASCII letters, or look like them: they must END a command name
+FOLLOWERS = ["\u212a", "\u017f", "\u0130", "\u0131", "\uff41", "\u0430", "\u03b1", "\u00e9", "\ufb01", "\u2113", "\u00b5"]
+
+
+def follower_texts():
+    out = []
+    for cmd in ("\\alpha", "\\pm", "\\beta", "\\infty"):
+        cmd = cmd.replace("\\\\", "\\")
+        for f in FOLLOWERS:
+            out.append(cmd + f)
+            out.append("a " + cmd + f + " b")
+    return out
+
+
 def templates(r, cmd):
     other = r.choice(KEYS)
     return [cmd, "x " + cmd, cmd + " y", cmd + "1", "(" + cmd + ")", cmd + other, cmd + " " + other, cmd + ".", "a" + cmd + "b" if not cmd[-1].isalpha() else "a" + cmd + " b",
@@ -123,12 +137,12 @@ def run(ctx):
             # every key once (template drawn at random), plus specials and random probes
             keys = KEYS[:]
             r.shuffle(keys)
-            texts = [r.choice(templates(r, k)) for k in keys] + SPECIALS * 2 + probe_texts(r, 60) + prefix_pairs()
+            texts = [r.choice(templates(r, k)) for k in keys] + SPECIALS * 2 + probe_texts(r, 60) + prefix_pairs() + follower_texts()
         else:
             texts = []
             for k in KEYS:
                 texts.extend(templates(r, k))
-            texts += SPECIALS * 3 + probe_texts(r, 400) + prefix_pairs()
+            texts += SPECIALS * 3 + probe_texts(r, 400) + prefix_pairs() + follower_texts()
         for i in range(0, len(texts), 40):
             docs.append((f"d{i}", make_doc(r, texts[i:i + 40])))
     failures = []
